@@ -26,6 +26,7 @@ type Env struct {
 	resultNames []string
 	pkg         *types.Package
 	depth       int
+	recDepth    int
 }
 
 func (ex *Exec) envAt(fr *Frame, st *State, b *ssa.BasicBlock) *Env {
@@ -208,6 +209,9 @@ func (ex *Exec) eval(env *Env, e Expr) Val {
 			}
 			if _, ok := v.T.Underlying().(*SpecInt); ok {
 				return scalar(v.T, IntOp("-", IntC(0), v.Term()))
+			}
+			if isFloatType(v.T) {
+				return scalar(v.T, fop("fneg", v.Term().S, v.Term()))
 			}
 			return scalar(v.T, BVNeg(v.Term()))
 		case "^":
@@ -502,7 +506,7 @@ func (ex *Exec) evalIndex(env *Env, x *EIndex) Val {
 		return r
 	case *types.Map:
 		k := coerce(iv, u.Key())
-		v, _ := ex.mapGet(env.st, b, k.Term())
+		v, _ := ex.mapGet(env.st, b, k.L)
 		return v
 	}
 	sfail("cannot index %s", b.T)
@@ -737,7 +741,7 @@ func (ex *Exec) evalCall(env *Env, x *ECall) Val {
 			sfail("has() on %s", m.T)
 		}
 		k := coerce(ex.eval(env, args[1]), mt.Key())
-		_, in := ex.mapGet(env.st, m, k.Term())
+		_, in := ex.mapGet(env.st, m, k.L)
 		return scalar(bt, And(in, Not(Eq(m.Term(), IntC(0)))))
 	case "fresh":
 		v := ex.eval(env, args[0])
@@ -764,6 +768,23 @@ func (ex *Exec) evalCall(env *Env, x *ECall) Val {
 			sfail("mathint() of %s", v.T)
 		}
 		return scalar(MathInt, bv2int(v.Term(), signed))
+	case "elems":
+		// contents of a slice's backing array as a total map from absolute index (offset(x)+i) to element
+		v := ex.eval(env, args[0])
+		st2, ok := v.T.Underlying().(*types.Slice)
+		if !ok {
+			sfail("elems() of %s", v.T)
+		}
+		el := layoutOf(st2.Elem())
+		r := Val{T: &SpecMap{K: types.Typ[types.Int], V: st2.Elem()}}
+		for j := range el.Leaves {
+			inner, _, _ := env.st.memInner(st2.Elem(), j, sliceArr(v))
+			r.L = append(r.L, inner)
+		}
+		return r
+	case "offset":
+		v := ex.eval(env, args[0])
+		return scalar(types.Typ[types.Int], sliceOff(v))
 	case "calls":
 		return ex.evalCalls(env, args)
 	case "callarg":
@@ -852,9 +873,46 @@ func (ex *Exec) callSpec(env *Env, sf *SpecFunc, args []Expr) Val {
 		}
 		vars[p.Name] = v
 	}
-	n := &Env{ex: ex, st: env.st, old: env.old, vars: vars, pkg: pkg, depth: env.depth + 1}
-	r := ex.eval(n, sf.Body)
+	n := &Env{ex: ex, st: env.st, old: env.old, vars: vars, pkg: pkg, depth: env.depth + 1, recDepth: env.recDepth}
 	rt := ex.ld.resolveType(pkg, sf.Result)
+	if sf.Rec {
+		// recursive spec function: uninterpreted application + its defining equation at this application (fuel 1)
+		rl := layoutOf(rt)
+		if len(rl.Leaves) != 1 {
+			sfail("recursive spec function %s must return a scalar", sf.Name)
+		}
+		var leaves []*Term
+		closed := true
+		for _, p := range sf.Params {
+			v := vars[p.Name]
+			if v.Loc != nil {
+				sfail("recursive spec function %s: interior pointer argument", sf.Name)
+			}
+			for _, l := range v.L {
+				leaves = append(leaves, l)
+				if len(l.fb) > 0 {
+					closed = false
+				}
+			}
+		}
+		app := App("rec_"+sf.Name, rl.Leaves[0].S, leaves...)
+		if closed && env.recDepth < 1 && !ex.recDone[app] {
+			if ex.recDone == nil {
+				ex.recDone = map[*Term]bool{}
+			}
+			ex.recDone[app] = true
+			n.recDepth = env.recDepth + 1
+			n.st = newState() // the body must be a function of its arguments only
+			n.old = n.st
+			b := ex.eval(n, sf.Body)
+			if b.Const != nil {
+				b = coerce(b, rt)
+			}
+			ex.assumptions = append(ex.assumptions, Eq(app, b.Term()))
+		}
+		return scalar(rt, app)
+	}
+	r := ex.eval(n, sf.Body)
 	if r.Const != nil {
 		r = coerce(r, rt)
 	}
